@@ -14,6 +14,9 @@ CONSTANTS
   LookupMemo = FALSE
   FilesEndCounter = FALSE
   ScanStopsAtLicense = FALSE
+  InsertByValue = FALSE
+  Marks = {0}
+  Faults <- MCFaults
   MaxFiles = 3
   MaxLic = 2
   FPool <- MCFPoolS
